@@ -1236,7 +1236,7 @@ func ruleCounts(c *Ctx, files func(string) bool) *RuleResult {
 // joins over the predecessors that stay reachable under i == j, and calls of another IsEdge with
 // equal arguments (false, by this same rule applied to every implementation). A return that is
 // definitely true is reported; one that depends on stored data is recorded and not judged.
-func ruleIrreflexive(c *Ctx, pkgRel string) *RuleResult {
+func ruleIrreflexive(c *Ctx, pkgRel string, onlyRecv ...string) *RuleResult {
 	r := &RuleResult{Rule: "IRREFLEXIVE", Doc: "no IsEdge implementation can answer true for i == j: negating, or otherwise deriving true from, the answer of an underlying loop-free graph is reported", MinInst: 3}
 	pkg := c.Pkg(pkgRel)
 	const (
@@ -1251,6 +1251,24 @@ func ruleIrreflexive(c *Ctx, pkgRel string) *RuleResult {
 		sig := fn.Signature
 		if sig.Params().Len() != 2 || sig.Results().Len() != 1 {
 			continue
+		}
+		if len(onlyRecv) > 0 {
+			// restricted to the named receiver types (C05 judges the editable graphs only)
+			keep := false
+			if rv := sig.Recv(); rv != nil {
+				rt := rv.Type()
+				if pt, ok := rt.(*types.Pointer); ok {
+					rt = pt.Elem()
+				}
+				if nt, ok := rt.(*types.Named); ok {
+					for _, o := range onlyRecv {
+						keep = keep || nt.Obj().Name() == o
+					}
+				}
+			}
+			if !keep {
+				continue
+			}
 		}
 		pi, pj := fn.Params[len(fn.Params)-2], fn.Params[len(fn.Params)-1]
 		P := NewProver(c, fn)
